@@ -20,7 +20,7 @@ RULE = (
     "geometry of default-constructed fields vs the documented one. field_struct: a binary integer field of a user "
     "subclass (two levels deep) whose class-level type table adds a 1-byte integer, sizes 1/2/4: the layout clauses "
     "(Spec.C02.holdsFieldBin) and the span bytes (int.to_bytes) are evaluated on the observation — the model has no "
-    "subclass tables; a fifth of all field objects in every check are instances of a do-nothing user sub-subclass. 'fits' is decided by the Lean predicate "
+    "subclass tables; a fifth of all field objects in every check are instances of a do-nothing user sub-subclass; a tenth of the cases hand integers over as integral floats or numpy scalars (the same numbers). 'fits' is decided by the Lean predicate "
     "Spec.C02.fits; non-fitting cases are skipped (counted under verdicts.skip). non-trivial = field size > 0 and "
     "value not None; distinct by full case."
 )
@@ -42,12 +42,24 @@ def run_impl(case):
         return _run_impl(case)
 
 
+def given(case, j, fd):
+    """the value as the caller hands it over: an integer may arrive as an integral float or a numpy scalar
+    (what a pandas column that once held a missing value gives) — the same number"""
+    v = codec.dec_val(j)
+    ia = case.get("int_as")
+    if ia and fd.get("k") == "int" and isinstance(v, int) and not isinstance(v, bool) and abs(v) < 2**53:
+        import numpy as np
+
+        return {"float": float, "np_float": np.float64, "np_int": np.int64}[ia](v)
+    return v
+
+
 def _run_impl(case):
     m = case["mode"]
     try:
         if m == "field":
             f = codec.mk_field(case["field"])
-            f.value = codec.dec_val(case["value"])
+            f.value = given(case, case["value"], case["field"])
             return {"out": codec.enc_data(f.write(codec.dec_data(case["line"])))}
         if m == "field_struct":
             # a user subclass (two levels deep) that extends the class-level numeric type table
@@ -63,7 +75,8 @@ def _run_impl(case):
             from cfinterface.components.line import Line
 
             fs = [codec.mk_field(fd) for fd in case["fields"]]
-            vals = [codec.dec_val(v) for v in case["values"]]
+            fds = case["fields"]
+            vals = [given(case, v, fds[i] if i < len(fds) else {}) for i, v in enumerate(case["values"])]
             if case.get("via") == "values_arg":
                 ln = Line(fs, values=vals, storage=case["storage"])
                 return {"out": codec.enc_data(ln.write(vals))}
@@ -347,13 +360,18 @@ def cases_of(chunk):
     elif k == "exh":
         for i, c in enumerate(exhaustive_field(chunk["k"], chunk["ms"], chunk["mst"], chunk["ml"])):
             if i % chunk["of"] == chunk["part"]:
+                if chunk["k"] == "int" and i % 5 == 0:
+                    c = {**c, "int_as": ("float", "np_float", "np_int")[(i // 5) % 3]}
                 yield c
     elif k == "exhbin":
         yield from exhaustive_field_bin(chunk["mst"], chunk["ml"])
     elif k == "rline":
         rng = random.Random(chunk["seed"])
         for _ in range(chunk["n"]):
-            yield random_layout(rng, chunk["binary"])
+            c = random_layout(rng, chunk["binary"])
+            if rng.random() < 0.1:
+                c["int_as"] = rng.choice(["float", "np_float", "np_int"])
+            yield c
 
 
 def shrinks(case):
